@@ -69,6 +69,9 @@ def run(ctx):
         'C20.e collector: spawn guarded by budget and concurrency; counters paired around spawn/await; exactly one of add/error per job unless an error is already recorded',
     ]
     ctx.not_decided += ['schedule-universal delivery (needs the interleavings)', 'timeouts / backoff', 'gRPC behaviour']
+    from . import shared
+    shared.or_default_rule(ctx, 'C20.g', ['cirq-core/cirq/work/', 'cirq-google/cirq_google/engine/'], floor=1)
+    ctx.decided.append('C20.g budgets / limits are never defaulted with `x or <non-zero number>`: an explicit 0 (sample budget used up) stays 0')
     m = repo.module(SM)
     sm = repo.cls('cirq_google.engine.stream_manager.StreamManager')
     dm = repo.cls('cirq_google.engine.stream_manager.ResponseDemux')
@@ -128,6 +131,25 @@ def run(ctx):
             src = ' '.join(ast.unparse(s) for s in h.body)
             ok = 'response_future.cancel()' in src and '_cancel(job.name)' in src and any(isinstance(s, ast.Raise) and s.exc is None for s in h.body)
             ctx.ob('C20.a', key + ':cancel-arm', ok, '' if ok else 'cancellation does not (cancel the future, cancel the remote job, re-raise)', m.rel, h.lineno)
+            # ... and the remote cancel is sent on *every* path through the arm, whatever state the local future is in
+            from ..flow import PathWalker
+
+            def _sends_cancel(node):
+                return any(isinstance(c, ast.Call) and call_name(c) == '_cancel' for c in ast.walk(node)) if isinstance(node, ast.stmt) else False
+            def _branch(test, taken, st):
+                # `if response_future is not None:` - with no future there is no request in flight and nothing to cancel remotely
+                if isinstance(test, ast.Compare) and len(test.ops) == 1 and isinstance(test.comparators[0], ast.Constant) and test.comparators[0].value is None \
+                        and isinstance(test.left, ast.Name):
+                    if (isinstance(test.ops[0], ast.IsNot) and not taken) or (isinstance(test.ops[0], ast.Is) and taken):
+                        return [True]
+                return [st]
+            w = PathWalker(lambda node, st: [True] if (st or _sends_cancel(node)) else [st], _branch)
+            w.exits = []
+            out, brk, cont = w.block(h.body, {False})
+            ends = set(out) | set(brk) | set(cont) | {e[1] for e in w.exits}
+            ok = bool(ends) and all(ends)
+            ctx.ob('C20.a', key + ':cancel-arm:rpc-on-every-path', ok, '' if ok else 'some path through the cancellation arm leaves without sending the cancel RPC (the call is conditional): '
+                   'when the local future is already done but the job is not, the submitter sees CancelledError while the remote job keeps running', m.rel, h.lineno)
     # response switch
     chain = [n for n in loop.body if isinstance(n, ast.If) and "'result' in response" in ast.unparse(n.test)]
     if not chain:
